@@ -123,4 +123,17 @@ def up : String := "upatch pad=0 sp=4096,2147487744,4294971392 sw=2:1,1:2,0:3"
 #guard has (judge [up] ["sw 0 0:1,1:2,2:3"]) "patch-table-changed"
 #guard has (judge [up] []) "unit-output-missing"
 
+/-! quickSort unit clause: order by value (3 values, `c` row-major: compar (x, y)) -/
+def uq : List String := ["uqsort sz=8 m=3 v=2,0,1,0 c=0--+0-++0"]
+#guard judge uq ["qs 0:1,0:3,1:2,2:0"] == []
+#guard judge uq ["qs 0:3,0:1,1:2,2:0"] == []
+#guard has (judge uq ["qs 0:1,1:2,0:3,2:0"]) "qsort-not-sorted"
+#guard has (judge uq ["qs 0:1,0:1,1:2,2:0"]) "qsort-not-a-permutation"
+#guard has (judge uq ["qs 0:1,0:3,1:0,2:2"]) "qsort-not-a-permutation"
+#guard has (judge uq ["qs 0:1,torn,1:2,2:0"]) "qsort-element-torn"
+#guard has (judge uq []) "unit-output-missing"
+-- a comparison that is not an order: any rearrangement is accepted, a lost element is not
+#guard judge ["uqsort sz=4 m=2 v=1,0,1 c=----"] ["qs 1,1,0"] == []
+#guard has (judge ["uqsort sz=4 m=2 v=1,0,1 c=----"] ["qs 1,0,0"]) "qsort-not-a-permutation"
+
 end NV.C17.SpecTests
